@@ -184,6 +184,8 @@ def run(ctx):
         for j, k in enumerate(keys):
             if not np.allclose(np.asarray(back[j][k]), np.asarray(params[j][k]), rtol=1e-6, atol=1e-6):
                 viol.append(dict(case, kind="ParamTransform round trip", entry=j))
+    import regress
+    evals += regress.run("C17", viol)
     for v in viol:
         v.setdefault("finding_class", None)
     return {"evaluations": evals, "distinct_nontrivial": len(distinct),
